@@ -34,6 +34,17 @@ for sid in ids:
         subprocess.run(["git", "-C", "/repo", "checkout", "--", "."], check=True)
     rows.append((sid, "; ".join(res), "%.0f s" % (time.time() - t0)))
     print(sid, res, flush=True)
+# merge with the rows of an earlier run when only some ids were re-run
+old_rows = {}
+path = os.path.join(ROOT, "REGRESSION.md")
+if sys.argv[1:] and os.path.exists(path):
+    for line in open(path):
+        parts = [x.strip() for x in line.strip().strip("|").split("|")]
+        if len(parts) >= 2 and parts[0][:1] == "C" and "-m" in parts[0]:
+            old_rows[parts[0]] = (parts[0], parts[1], parts[2] if len(parts) > 2 else "")
+for r in rows:
+    old_rows[r[0]] = r
+rows = [old_rows[k] for k in sorted(old_rows) if os.path.isfile(os.path.join(ROOT, k, "meta.json"))] if old_rows else rows
 with open(os.path.join(ROOT, "REGRESSION.md"), "w") as f:
     f.write("# Seeded changes re-run against the current checks and tree\n\n")
     f.write("Produced by `tools/regress_seeded.py` (each change applied to /repo's working tree alone, quick tier of the checks named in its meta.json, reverted).\n")
